@@ -117,8 +117,9 @@ def fqn_text(r, parts):
     return out
 
 
-def assign_targets(r, files, order, mode, malformed):
+def assign_targets(r, files, order, mode, malformed, group=None, bis=()):
     objs = named_objects(files, order)
+    group = group or {f: 0 for f in order}
 
     def refs_of(f):
         res = []
@@ -144,11 +145,22 @@ def assign_targets(r, files, order, mode, malformed):
         x["text"] = fqn_text(r, parts)
         x["name"] = ".".join(parts)
         x["delay"] = delay
+        x["builtin"] = False
+
+    def set_builtin(x, delay=0):
+        set_ref(x, None, [r.choice(list(bis))], delay)
+        x["builtin"] = True
 
     if mode == "scripted":
-        allrefs = [t for f in order for t in refs_of(f)]
-        for kind, x, path, e in allrefs:
-            t = r.choice(objs) if objs and not (malformed and r.chance(0.1)) else None
+        allrefs = [(f,) + t for f in order for t in refs_of(f)]
+        for f, kind, x, path, e in allrefs:
+            delay = r.weighted([(0, 5), (1, 3), (2, 2), (3, 1)])
+            if bis and kind in ("use", "one") and r.chance(0.25):
+                set_builtin(x, delay)
+                continue
+            # the scripted provider can only return objects of files loaded so far
+            cand = [o for o in objs if group[o["file"]] <= group[f]]
+            t = r.choice(cand) if cand and not (malformed and r.chance(0.1)) else None
             shape = r.weighted([("own", 4), ("full", 4), ("rand", 2)])
             if t is None or shape == "rand":
                 parts = [r.choice(["a", "b", "zz", "q7"]) for _ in range(r.range(1, 3))]
@@ -158,12 +170,13 @@ def assign_targets(r, files, order, mode, malformed):
                 parts = t["path"] + [t["name"]]
             if kind in ("val",):
                 parts = parts[-1:]           # Pick.val is a plain ID in the grammar
-            set_ref(x, t, parts, r.weighted([(0, 5), (1, 3), (2, 2), (3, 1)]))
-        ds = sorted({x["delay"] for _, x, _, _ in allrefs})
+            set_ref(x, t, parts, delay)
         if not (malformed and r.chance(0.5)):
-            rank = {d: i for i, d in enumerate(ds)}       # contiguous delays: every round resolves something
-            for _, x, _, _ in allrefs:
-                x["delay"] = rank[x["delay"]]
+            for g in sorted(set(group.values())):      # contiguous delays per load: every round resolves something
+                mine = [x for f, _, x, _, _ in allrefs if group[f] == g]
+                rank = {d: i for i, d in enumerate(sorted({x["delay"] for x in mine}))}
+                for x in mine:
+                    x["delay"] = rank[x["delay"]]
         return True
 
     # real providers: FQNImportURI + RelativeName("inst.type.elems")
@@ -191,6 +204,9 @@ def assign_targets(r, files, order, mode, malformed):
         vis = [o for o in vis if o["cls"] != "Inst" or o["node"]["k"] == "inst"]
         for kind, x, path, e in refs_of(f):
             if kind in ("use", "one"):
+                if bis and r.chance(0.25):
+                    set_builtin(x)
+                    continue
                 if malformed and r.chance(0.12):
                     set_ref(x, None, ["zz9"])
                     continue
@@ -275,7 +291,7 @@ def emit_file(r, fdesc, ids, fidx):
         ids["ref"] += 1
         node = ["r", ids["ref"], a, b, x["name"]]
         refs.append({"id": ids["ref"], "s": a, "e": b, "text": x["text"], "name": x["name"], "delay": x["delay"],
-                     "target": x["target"], "file": fidx})
+                     "target": x["target"], "file": fidx, "builtin": bool(x.get("builtin"))})
         return node
 
     def core(nm):
@@ -340,12 +356,19 @@ def build_case(r, mode, nfiles, size, malformed=False, from_str=False):
     names, files = gen_struct(r, nfiles, mode, size)
     if from_str:
         files[names[0]]["imports"] = []
-    order = reachable(names, files)
-    assign_targets(r, files, order, mode, malformed)
-    return finish_case(r, names, files, order, mode, from_str)
+    loads = [names[0]]
+    if not from_str and nfiles >= 2 and r.chance(0.3):
+        loads = [r.choice(names[1:]), names[0]]       # another file is loaded first: global repository
+    grepo = len(loads) > 1 or (not from_str and r.chance(0.15))
+    bis = ["b1", "b2"] if r.chance(0.4) else []
+    reach = {m: reachable([m] + [n for n in names if n != m], files) for m in loads}
+    order = [f for f in names if any(f in reach[m] for m in loads)]
+    group = {f: min(k for k, m in enumerate(loads) if f in reach[m]) for f in order}
+    assign_targets(r, files, order, mode, malformed, group, bis)
+    return finish_case(r, names, files, order, mode, from_str, loads=loads, reach=reach, bis=bis, grepo=grepo)
 
 
-def finish_case(r, names, files, order, mode, from_str=False):
+def finish_case(r, names, files, order, mode, from_str=False, loads=None, reach=None, bis=(), grepo=False):
     """print the files (exact spans), index the targets, build the provider table"""
     ids = {"obj": 0, "ref": 0}
     texts, trees, refs = {}, {}, {}
@@ -387,23 +410,44 @@ def finish_case(r, names, files, order, mode, from_str=False):
                 else:
                     x["target"] = None
             table["%s:%d" % (f, x["s"])] = {"delay": x["delay"], "target": x["target"]}
+    loads = loads or [names[0]]
+    reach = reach or {names[0]: list(order)}
     return {"mode": mode, "main": names[0], "from_str": from_str, "files": {f: texts[f] for f in order}, "order": order,
-            "table": table if mode == "scripted" else {}, "trees": trees, "refs": refs}
+            "table": table if mode == "scripted" else {}, "trees": trees, "refs": refs,
+            "loads": loads, "reach": {m: [f for f in order if f in reach[m]] for m in loads}, "builtins": list(bis), "grepo": bool(grepo)}
+
+
+def norm_case(c):
+    """defaults for corpus cases recorded before loads/builtins existed"""
+    c.setdefault("loads", [c["main"]])
+    c.setdefault("reach", {c["main"]: list(c["order"])})
+    c.setdefault("builtins", [])
+    c.setdefault("grepo", False)
+    for f in c["order"]:
+        for x in c["refs"][f]:
+            x.setdefault("builtin", False)
+    return c
+
+
+def groups(case):
+    return {f: min(k for k, m in enumerate(case["loads"]) if f in case["reach"][m]) for f in case["order"]}
 
 
 def predict(case):
-    pend = [x for f in case["order"] for x in case["refs"][f]]
-    k = 0
-    while True:
-        now = [x for x in pend if x["delay"] <= k]
-        if any(x["tspan"] is None for x in now):
-            return "unknown"
-        pend = [x for x in pend if x["delay"] > k]
-        if not pend:
-            return "ok"
-        if not now:
-            return "unresolvable"
-        k += 1
+    """outcome of the sequence of loads: 'ok' or 'fail<k>:<kind>' for the first failing load"""
+    grp = groups(case)
+    for g in range(len(case["loads"])):
+        pend = [x for f in case["order"] if grp[f] == g for x in case["refs"][f]]
+        k = 0
+        while pend:
+            now = [x for x in pend if x["delay"] <= k]
+            if any(x["tspan"] is None and not x["builtin"] for x in now):
+                return "fail%d:unknown" % g
+            pend = [x for x in pend if x["delay"] > k]
+            if pend and not now:
+                return "fail%d:unresolvable" % g
+            k += 1
+    return "ok"
 
 
 # ---------------------------------------------------------------- Coq side
@@ -414,17 +458,33 @@ Definition show_entry (e : entry) : string :=
   ++ "," ++ show_N (e_dstart e) ++ "," ++ show_N (e_dend e).
 Definition show_item (x : N * N * nat) : string :=
   show_N (fst (fst x)) ++ "-" ++ show_N (snd (fst x)) ++ ":" ++ show_nat (snd x).
-Definition show_out (o : outcome) : string :=
-  match o with
-  | Ok ls => "ok|" ++ sjoin "/" (map (fun es => sjoin ";" (map show_entry es)) ls)
-  | Unresolvable _ => "unresolvable"
-  | UnknownObject => "unknown"
-  | OutOfFuel => "outoffuel"
-  end.
 Definition T (i : nat) (d : nat) (f : nat) (s e : N) := (i, (d, Some {| tfile := f; tstart := s; tend := e |})).
 Definition U (i : nat) (d : nat) : nat * (nat * option target) := (i, (d, None)).
-Definition show_case (tbl : list (nat * (nat * option target))) (trees : list node) : string :=
-  show_out (load_trees (table_ans tbl) trees) ++ "#" ++ sjoin "/" (map (fun t => sjoin ";" (map show_item (rule_dict t))) trees)
+Fixpoint lookup_repo (i : nat) (repo : list (nat * list entry)) : option (list entry) :=
+  match repo with [] => None | (j, es) :: r => if Nat.eqb i j then Some es else lookup_repo i r end.
+Definition add_new (repo : list (nat * list entry)) (l : list (nat * list entry)) : list (nat * list entry) :=
+  fold_left (fun rp p => match lookup_repo (fst p) rp with Some _ => rp | None => (rp ++ [p])%list end) l repo.
+(* a sequence of main-model loads with one (global) repository: files already in it are Done *)
+Fixpoint run_loads (k : nat) (ans : provider) (bi : cref -> bool) (repo : list (nat * list entry))
+                   (loads : list (list (nat * node))) : string + list (nat * list entry) :=
+  match loads with
+  | [] => inr repo
+  | files :: rest =>
+      let gms := map (fun it => match lookup_repo (fst it) repo with Some es => Done es | None => Fresh (refs_pre (snd it)) end) files in
+      match load_repo ans bi gms with
+      | Ok outs => run_loads (S k) ans bi (add_new repo (combine (map fst files) outs)) rest
+      | Unresolvable _ => inl ("fail" ++ show_nat k ++ ":unresolvable")
+      | UnknownObject => inl ("fail" ++ show_nat k ++ ":unknown")
+      | OutOfFuel => inl "outoffuel"
+      end
+  end.
+Definition show_case (tbl : list (nat * (nat * option target))) (bis : list nat) (loads : list (list nat)) (trees : list node) : string :=
+  let lds := map (map (fun i => (i, nth i trees (NTok 0 0)))) loads in
+  match run_loads 0 (table_ans tbl) (fun x => existsb (Nat.eqb (cid x)) bis) [] lds with
+  | inl s => s
+  | inr repo => "ok|" ++ sjoin "/" (map (fun i => sjoin ";" (map show_entry (match lookup_repo i repo with Some es => es | None => [] end)))
+                                        (seq 0 (List.length trees)))
+  end ++ "#" ++ sjoin "/" (map (fun t => sjoin ";" (map show_item (rule_dict t))) trees)
   ++ "#" ++ sjoin "" (map (fun t => show_bool (wfb t)) trees).
 """
 
@@ -451,7 +511,9 @@ def coq_expr(case):
             else:
                 tbl.append("U %d %d" % (x["id"], x["delay"]))
     trees = cons_list(["(%s)" % coq_node(case["trees"][f]) for f in case["order"]])
-    return "show_case %s (%s)%%N" % (cons_list(["(%s)" % t for t in tbl]), trees)
+    bis = cons_list(["%d" % x["id"] for f in case["order"] for x in case["refs"][f] if x["builtin"]])
+    loads = cons_list([cons_list(["%d" % case["order"].index(f) for f in case["reach"][m]]) for m in case["loads"]])
+    return "show_case %s %s %s (%s)%%N" % (cons_list(["(%s)" % t for t in tbl]), bis, loads, trees)
 
 
 def impl_canon(case, o):
@@ -500,7 +562,7 @@ def oracle(case, o):
             bad.append("model %s has no tool-support data" % f)
             continue
         text = case["files"][f]
-        exp = case["refs"][f]
+        exp = [x for x in case["refs"][f] if not x["builtin"]]      # builtin-resolved references are not listed
         got = m["refs"]
         starts = [g[1] for g in got]
         if any(not isinstance(p, int) for p in starts):
@@ -549,12 +611,12 @@ def oracle(case, o):
 
 
 def case_key(case):
-    return json.dumps([case["mode"], case["files"], case["table"]], sort_keys=True)
+    return json.dumps([case["mode"], case["files"], case["table"], case["loads"], case["builtins"], case["grepo"]], sort_keys=True)
 
 
 def nontrivial(case):
     refs = [x for f in case["order"] for x in case["refs"][f]]
-    if any("." in x["name"] or x["delay"] > 0 for x in refs):
+    if any("." in x["name"] or x["delay"] > 0 or x["builtin"] for x in refs) or len(case["loads"]) > 1:
         return True
     if len(case["order"]) > 1 and refs:
         return True
@@ -573,6 +635,8 @@ def describe(case, chk):
     chk.stat("refs qualified", sum(1 for x in refs if "." in x["name"]))
     chk.stat("refs text!=name", sum(1 for x in refs if x["text"] != x["name"]))
     chk.stat("refs scripted-postponed", sum(1 for x in refs if x["delay"] > 0))
+    chk.stat("refs resolved through builtins (no entry)", sum(1 for x in refs if x["builtin"]))
+    chk.stat("cases with a model loaded earlier (global repository)", 1 if len(case["loads"]) > 1 else 0)
     chk.stat("refs cross-file", sum(1 for x in refs if x["tspan"] and x["tspan"][0] != x["file"]))
     nobj = same = 0
     for f in case["order"]:
@@ -590,7 +654,7 @@ def load_corpus():
     for p in sorted(glob.glob(os.path.join(d, "*.json"))):
         c = json.load(open(p))
         c["corpus"] = os.path.basename(p)
-        res.append(c)
+        res.append(norm_case(c))
     return res
 
 
@@ -598,7 +662,8 @@ def run_impl(cases):
     chunks = [cases[i::core.NPROC] for i in range(core.NPROC)]
     chunks = [c for c in chunks if c]
     outs = core.run_impl_parallel("c34", [{"cases": [{"files": c["files"], "main": c["main"], "mode": c["mode"], "table": c["table"],
-                                                      "from_str": c.get("from_str", False)} for c in ch]} for ch in chunks])
+                                                      "from_str": c.get("from_str", False), "loads": c["loads"],
+                                                      "builtins": c["builtins"], "grepo": c["grepo"]} for c in ch]} for ch in chunks])
     impl = {}
     for ch, o in zip(chunks, outs):
         for c, x in zip(ch, o):
@@ -644,7 +709,7 @@ def schedule_cases(chk, k, maxd):
 
 def run(chk):
     chk.prove([edpos_tr.translate])
-    n = 1200 if chk.thorough else 140
+    n = 1500 if chk.thorough else 260
     cases = load_corpus() + gen_cases(chk, n)
     if chk.thorough:
         cases += schedule_cases(chk, 4, 3)        # 256 schedules, incl. the stuck (unresolvable) ones
@@ -688,7 +753,7 @@ def run(chk):
 
 
 def slim(c):
-    return {k: c[k] for k in ("mode", "main", "from_str", "files", "order", "table", "trees", "refs") if k in c}
+    return {k: c[k] for k in ("mode", "main", "from_str", "files", "order", "table", "trees", "refs", "loads", "reach", "builtins", "grepo") if k in c}
 
 
 def replay(rep):
@@ -696,6 +761,7 @@ def replay(rep):
     if not isinstance(c, dict) or "files" not in c:
         print(json.dumps(rep, indent=1)[:4000])
         return 1
+    c = norm_case(c)
     impl = run_impl([c])
     o = impl[id(c)]
     vals, errs = core.coq_eval("C34r", IMPORTS, [coq_expr(c)])
